@@ -11,5 +11,5 @@ git -C /repo worktree add --detach -q "$W/repo" HEAD || exit 2
 trap 'git -C /repo worktree remove --force "$W/repo" 2>/dev/null; rm -rf "$W"' EXIT
 git -C "$W/repo" apply "$P" || { echo "patch does not apply"; exit 2; }
 for id in "$@"; do
-  echo "== $id"; VERIF_REPO="$W/repo" VERIF_OUT="$W/out" timeout 3000 ./bin/kv check $id --tier ${TIER:-quick} 2>&1 | grep -v "^  signature\|^KNOWN-FINDING" | tail -${LINES_OUT:-6} | cut -c1-400; echo "exit=${PIPESTATUS[0]}"
+  echo "== $id"; VERIF_REPO="$W/repo" VERIF_OUT="$W/out" timeout 3000 ./bin/kv check $id --tier ${TIER:-quick} 2>&1 | grep -v "${FILTER:-^  signature\|^KNOWN-FINDING}" | tail -${LINES_OUT:-6} | cut -c1-400; echo "exit=${PIPESTATUS[0]}"
 done
